@@ -1072,6 +1072,7 @@ class Program:
         dbg = list(j['dbg'])
         blocks = [dict(blk) for blk in j['blocks']]
         inl = []
+        inl_map = {}
         for bi, c in todo:
             fb = self._make_inlined(self.bodies[c], depth + 1, stack + (b.path,))
             fj = fb.j
@@ -1105,15 +1106,50 @@ class Program:
             blocks[bi] = dict(blocks[bi], t=t)
             inl.append(c)
             inl.extend(getattr(fb, 'inlined_callees', []))
+            inl_map[c] = base
+            for c2, b2 in getattr(fb, 'inlined_base', {}).items():
+                inl_map[c2] = base + b2
         nj = dict(j, locals=locals_, dbg=dbg, blocks=blocks)
         nb_ = Body(nj, self)
         nb_.path = b.path
         nb_.inlined_callees = inl
+        nb_.inlined_base = inl_map      # helper path -> offset of its blocks in this body
         for c in inl:
             self._inlined_into.setdefault(b.path, [])
             if c not in self._inlined_into[b.path]:
                 self._inlined_into[b.path].append(c)
         return nb_
+
+    def analysis_bodies(self):
+        """[(path, body)] for whole-program site indexes: every body in its inlined form (Program.body), without the raw
+        bodies of helpers that were spliced into their single caller (their sites are seen once, inside the caller)."""
+        ab = self.__dict__.get('_ab')
+        if ab is None:
+            helpers = set()
+            out = []
+            for p, b in self.bodies.items():
+                ib = self.body(p)
+                if ib is not b:
+                    helpers |= set(getattr(ib, 'inlined_callees', []))
+                out.append((p, ib))
+            ab = [(p, b) for p, b in out if p not in helpers]
+            self._ab = ab
+            self._helper_host = {}
+            for p, b in ab:
+                for h, base in getattr(b, 'inlined_base', {}).items():
+                    self._helper_host[h] = (b, base)
+        return ab
+
+    def host_site(self, body, bi):
+        """Map a site (raw body, block) to (analysis body, block): identity unless the body is an inlined helper."""
+        self.analysis_bodies()
+        hh = self._helper_host.get(body.path)
+        if hh is not None and body is self.bodies.get(body.path):
+            return hh[0], hh[1] + bi
+        ib = self._inlined.get(body.path)
+        if ib is not None and ib is not body and body is self.bodies.get(body.path):
+            return ib, bi      # own blocks keep their indices in the inlined form
+        return body, bi
 
     def find_bodies(self, regex):
         r = re.compile(regex)
